@@ -158,6 +158,16 @@ let gen_case ?(with_probes = true) ?twin ?(tail = fun (_ : string) (_ : view) (_
         (probes v) in
   pr obs (shape_line id 0 v0);
   emit_probes 0 v0;
+  (* C01_broadcast: v.broadcasted()[i] is v for any i (the added dimension has stride 0 and no size) *)
+  let emit_bprobe step v =
+    if with_probes && rank v < c.maxd && i (l_num_elements v.lay) > 0 && chance 25 then begin
+      let k = rnd_range (-5) 9 in
+      pr prog (Printf.sprintf "bprobe %d" k);
+      tw (Printf.sprintf "bprobe %d" k);
+      let same = v_index (z k) (v_broadcasted (z 0) v) = v in
+      pr obs (Printf.sprintf "Q %s %d broadcasted i=%d same=%d" id step k (if same then 1 else 0))
+    end in
+  emit_bprobe 0 v0;
   let nops = rnd_range 0 c.maxops in
   let v = ref v0 and kinds = ref [] and step = ref 0 in
   for _ = 1 to nops do
@@ -175,7 +185,8 @@ let gen_case ?(with_probes = true) ?twin ?(tail = fun (_ : string) (_ : view) (_
         kinds := op_kind o :: !kinds;
         pr prog ("op " ^ op_text o);
         pr obs (shape_line id !step !v);
-        emit_probes !step !v
+        emit_probes !step !v;
+        emit_bprobe !step !v
   done;
   let extra_kinds = tail id !v prog obs in
   pr prog "end";
@@ -291,6 +302,9 @@ let run_text ?(extra = fun (_ : string) (_ : view) (_ : string list list) (_ : B
           incr step;
           if dom_op o !v then (v := exec_op o !v; pr (shape_line !id !step !v))
           else (pr (Printf.sprintf "X %s %d out-of-domain %s" !id !step (String.concat " " toks)); dead := true)
+      | [ "bprobe"; k ] when not !dead ->
+          let same = v_index (z (int_of_string k)) (v_broadcasted (z 0) !v) = !v in
+          pr (Printf.sprintf "Q %s %d broadcasted i=%s same=%d" !id !step k (if same then 1 else 0))
       | "probe" :: toks when not !dead ->
           let idx = List.map int_of_string toks in
           let exts = List.map (fun (a, b) -> (i a, i b)) (l_extensions !v.lay) in
